@@ -22,8 +22,8 @@ class C05(ProgCheck):
     ]
     MIX_DEFER = {"circle": 3, "square": 2, "xpoly": 2, "xscale": 5, "xtrans": 4, "xrot": 4, "xmirror": 2, "xcopy": 5, "xassign": 5, "xsettol": 4,
                  "xsimplify": 2, "xoffset": 2, "xadd": 2, "xsub": 2, "xint": 1, "xhull": 1, "xwarp": 1, "xdecompose": 1,
-                 "cube": 2, "sphere": 1, "rot": 3, "trans": 2, "mirror": 3, "scale": 2, "copy": 4, "assign": 4, "setprops": 2, "calcnorm": 1,
-                 "add": 2, "sub": 1, "extrude": 1, "slice": 1, "settol": 1, "asorig": 1}
+                 "cube": 2, "sphere": 1, "rot": 3, "trans": 2, "mirror": 3, "scale": 2, "hugescale": 1, "scratch": 4, "drop": 3, "int": 1, "copy": 4, "assign": 4, "setprops": 2, "calcnorm": 1,
+                 "add": 2, "sub": 2, "extrude": 1, "slice": 1, "settol": 1, "asorig": 1}
     arms = [
         ("deferred_observation", 25, {"mix": MIX_DEFER, "nops": (6, 30), "flavours": ["ser", "ser-asan"], "kind": "c05defer"}),
         ("history", 60, {"mix": gen.MIX_HISTORY, "nops": (10, 40), "flavours": ["ser", "ser", "ser-asan", "par"], "thr": [64, 16]}),
